@@ -261,6 +261,21 @@ func c14Mutate(e *env, s string) (string, string) {
 func c14WfNegatives(e *env) {
 	ms := c14Mutants
 	c14Mutants = nil
+	// random programs OF THE GRAMMAR: random walks of the recogniser over a token alphabet (ops_jssyntax.ml), printed
+	// with a blank or a line break between tokens: js_parse accepts them by construction, so node must accept them
+	// (this exercises the grammar far outside what soyjs emits)
+	for k := 0; k < 200*e.scale; k++ {
+		mod, mode := "#0", "es5"
+		if k%2 == 1 {
+			mod, mode = "#1", "es6"
+		}
+		r := e.m.Call("jsrandom", mod, fmt.Sprintf("#%d", e.rng.Intn(1<<30)), fmt.Sprintf("#%d", 3+e.rng.Intn(80)))
+		if len(r) == 2 && r[0] == "ok" {
+			ms = append(ms, &c14Mutant{Mode: mode, Code: hx.UnH(r[1]), origin: "random walk of js_step", kind: "random-walk"})
+		} else {
+			e.res.Histogram["wf:random-walk:not-completed"]++
+		}
+	}
 	if len(ms) == 0 {
 		return
 	}
@@ -307,6 +322,19 @@ func c14WfNegatives(e *env) {
 	os.Remove(outf)
 	for i, m := range ms {
 		nodeOK := out[i] == nil
+		if m.kind == "random-walk" {
+			e.res.Count(m.Code, true, "random-program-of-the-grammar")
+			switch {
+			case m.parse != "ok":
+				e.res.Fail(hx.Violation{Kind: "mismatch", What: "a random walk of the recogniser, printed, is not accepted by lex_bytes + js_parse (" + m.parse + ")", Case: map[string]interface{}{"mode": m.Mode, "code": c14Trunc(m.Code)}}, "")
+			case nodeOK:
+				e.res.Histogram["wf:random-walk:node-accepts"]++
+			default:
+				e.res.Fail(hx.Violation{Kind: "mismatch", What: "js_parse accepts a text that node's parser rejects: the grammar of Spec/JsSyntax.v is not a subset of JavaScript",
+					Case: map[string]interface{}{"mode": m.Mode, "code": c14Trunc(m.Code), "mutation": m.kind}, Observed: *out[i]}, "")
+			}
+			continue
+		}
 		switch {
 		case m.parse == "ok" && nodeOK:
 			e.res.Histogram["wf:mutant:both-accept"]++
